@@ -33,6 +33,9 @@ from _seed import seed_uw as _seed_uw
 HARNESSES.append(dict(COMMON, name="loc_nested_numa_s2", entry="h_location", defines={"TYPE": 0, "TPL": 6, "OPP": 0, "FIX_S2": 1}, units=["hwloc/bitmap.c", "hwloc/traversal.c"], unwind=14,
                       unwindset=_seed_uw(**dict(COMMON["unwindset"])), encoded=EVAL, tiers={"quick": {}, "thorough": {}},
                       bounds="location pack:<d>.numa:all on seed S2 (packages {0,1,2} and {5}, NUMA#0 inside package 0, a CPU-less NUMA#2 attached to the machine), digits 0..5, logical/physical symbolic, arbitrary accumulators", cost=60))
+HARNESSES.append(dict(COMMON, name="loc_nested_numa_s10", entry="h_location", defines={"TYPE": 0, "TPL": 6, "OPP": 0, "FIX_SEED": 10}, units=["hwloc/bitmap.c", "hwloc/traversal.c"], unwind=14,
+                      unwindset=_seed_uw(**dict(COMMON["unwindset"])), encoded=EVAL, tiers={"quick": {}, "thorough": {}},
+                      bounds="location pack:<d>.numa:all on seed S10 (one NUMA node attached to the machine: it intersects every package and is inside none), digits 0..5, logical/physical symbolic, arbitrary accumulators", cost=60))
 OUT_UW = dict(COMMON["unwindset"], **{"h_number_intersect.%d" % k: 98 for k in range(8)}); OUT_UW.update({"largest_case.0": 98, "h_largest.0": 17, "h_largest.1": 17, "h_largest.2": 17, "strlen.0": 40, "strcpy.0": 40, "vsnprintf.0": 40, "strchr.0": 40, "strcspn.0": 40, "strcspn.1": 12, "strspn.0": 40, "strspn.1": 12})
 OUTF = ["hwloc_calc_output", "hwloc_calc_get_next_obj_covering_set_by_depth", "hwloc_calc_intersects_set", "hwloc_calc_check_object_filtered", "hwloc_obj_type_snprintf", "hwloc_get_first_largest_obj_inside_cpuset"]
 for ot, nm in ((0, "pu"), (1, "package"), (2, "numa")):
